@@ -1464,6 +1464,29 @@ pub fn run_mgr(toks: &[&str]) -> Lines {
                         }
                     }
                 },
+                "RB" => {
+                    // several files in one register_shards call; their modification times were set when they were written
+                    let mut batch = vec![];
+                    for x in op[1].split(',') {
+                        let (i, mt) = x.split_once(':').unwrap();
+                        let i: usize = i.parse().unwrap();
+                        if i < shards.len() {
+                            let f = std::fs::File::options().write(true).open(&shards[i].0).unwrap();
+                            f.set_modified(std::time::UNIX_EPOCH + std::time::Duration::from_secs(mt.parse().unwrap())).unwrap();
+                            drop(f);
+                            batch.push(i);
+                        }
+                    }
+                    let loaded: Vec<_> = batch.iter().map(|&i| mdb_shard::MDBShardFile::load_from_file(&shards[i].0).unwrap()).collect();
+                    mgr.register_shards(&loaded).await.unwrap();
+                    for i in batch {
+                        if !registered.contains(&i) {
+                            registered.push(i);
+                            told.push((shards[i].1, shards[i].2.clone()));
+                            told_chunks += shards[i].2.iter().map(|c| c.chunks.len()).sum::<usize>();
+                        }
+                    }
+                },
                 "A" => {
                     let c = parse_cas(op);
                     told_chunks += c.chunks.len();
